@@ -24,7 +24,40 @@ var msgPieces = []string{
 
 var msgPlain = []string{"a", "b", "hello", "world", "x y", "0", "42", "é", "日本", "some text", "{\"k\": 1}"}
 
+// boundaryLen draws a length: small ones uniformly, and the neighbourhood of every power of two up to 8192
+// (fixed-size scratch buffers and chunked copies go wrong exactly there)
+func boundaryLen(rng *rand.Rand) int {
+	switch rng.Intn(10) {
+	case 0, 1, 2, 3:
+		return rng.Intn(200)
+	case 4, 5, 6, 7:
+		n := (1 << (3 + rng.Intn(11))) + rng.Intn(17) - 8
+		if n < 0 {
+			n = 0
+		}
+		return n
+	}
+	return rng.Intn(5000)
+}
+
+// longRun is one long line (sometimes broken once), the shape short pieces never produce
+func longRun(rng *rand.Rand) string {
+	n := boundaryLen(rng)
+	s := strings.Repeat(pick(rng, "x", "x", "ab", "é"), n)
+	if len(s) > n {
+		s = s[:n]
+	}
+	if n > 0 && rng.Intn(4) == 0 {
+		k := rng.Intn(n)
+		s = s[:k] + pick(rng, "\n", "\r", "\r\n") + s[k:]
+	}
+	return s
+}
+
 func genPayload(rng *rand.Rand) string {
+	if rng.Intn(12) == 0 {
+		return longRun(rng)
+	}
 	switch rng.Intn(10) {
 	case 0:
 		return ""
@@ -54,6 +87,9 @@ func genPayload(rng *rand.Rand) string {
 
 // a value for ID / type: mostly single-line, sometimes hostile
 func genFieldValue(rng *rand.Rand) string {
+	if rng.Intn(20) == 0 {
+		return strings.Repeat("v", boundaryLen(rng))
+	}
 	switch rng.Intn(8) {
 	case 0:
 		return ""
@@ -143,7 +179,26 @@ func genMsgScript(rng *rand.Rand, maxOps int) string {
 	return strings.Join(ops, ";")
 }
 
+// lenSweep: every line length 0..max for each field kind, alone and followed by another line/message
+// (deterministic; a fixed-size buffer boundary cannot fall between samples)
+func lenSweep(max int, emit func(string)) {
+	for l := 0; l <= max; l++ {
+		x := hxs(strings.Repeat("x", l))
+		emit(fmt.Sprintf("ENC d:%s,%s;c:%s,%s;i:%s;t:%s d:%s", x, hxs("tail"), x, hxs("tail"), x, x, hxs("next")))
+		emit(fmt.Sprintf("ENC d:%s d:%s", x, hxs("next")))
+		emit(fmt.Sprintf("ENC c:%s d:%s", x, hxs("next")))
+	}
+}
+
 func genC02(rng *rand.Rand, n int, thorough bool, emit func(string)) {
+	sweep := 150
+	if thorough {
+		sweep = 1100
+	}
+	if n >= 3*(sweep+1) {
+		lenSweep(sweep, emit)
+		n -= 3 * (sweep + 1)
+	}
 	for i := 0; i < n; i++ {
 		k := 1 + rng.Intn(4)
 		if rng.Intn(20) == 0 {
